@@ -88,6 +88,9 @@ def _gpt_case(draw):
             'hp': {'factor_update_steps': draw(st.sampled_from([1, 1, 2])), 'inv_update_steps': ius, 'damping': 0.05, 'factor_decay': 0.9,
                    'kl_clip': draw(st.sampled_from([1e30, 1e-3])), 'lr': 0.1},
             'dir_mode': draw(st.booleans()), 'program': prog,
+            'param_dtype': draw(st.sampled_from(['float32', 'float32', 'bfloat16', 'float16'])),
+            'factor_dtype': draw(st.sampled_from([None, None, 'float32', 'bfloat16'])),
+            'inv_dtype': draw(st.sampled_from([None, None, 'float64'])),
             'schedule': draw(st.lists(st.integers(0, 63), max_size=250)), 'flip': draw(st.booleans())}
 
 
@@ -188,7 +191,8 @@ class C03(Prop):
         W = case['pipe'] * case['data'] * case['model']
         kinds = [o['op'] for o in case['program']]
         labels = {'kind': 'gpt', 'W': W, 'topo': f"{case['pipe']}x{case['data']}x{case['model']}", 'has_load': 'load' in kinds,
-                  'dir_mode': case['dir_mode'], 'bucketed': case['cap'] > 0, 'len': len(kinds)}
+                  'dir_mode': case['dir_mode'], 'bucketed': case['cap'] > 0, 'len': len(kinds),
+                  'gpt_param_dtype': case.get('param_dtype', 'float32')}
         tmp = tempfile.mkdtemp(prefix='c03_', dir='/dev/shm' if os.path.isdir('/dev/shm') else None) if case['dir_mode'] else None
         try:
             res = gptrun.run_gpt(dict(case, ckpt_dir=(os.path.join(tmp, 'f') if tmp else None)), case['program'], case['schedule'], case['flip'])
